@@ -1,9 +1,163 @@
-"""E3: compile-pass / compile-fail witness crates (filled in later)."""
+"""E3: compile-pass / compile-fail witness crates, type-checked against the current /repo tree.
+
+Each witness is a tiny crate generated under .work/witness/<tag>/ that path-depends on
+<repo>/fast-tlsh (lock file copied from the repository).  A compile-fail witness has a compiling
+twin that differs only by the offending line, and must fail with the expected error code."""
+import hashlib
+import json
+import os
+import shutil
+import subprocess
+
+from .. import engine
+
+NOSTD_LIB = r'''#![no_std]
+//! Uses the whole core API from a no_std, no_alloc crate.
+use core::str::FromStr;
+use tlsh::prelude::*;
+use tlsh::hashes::{Long, LongWithLongChecksum, Normal, NormalWithLongChecksum, Short};
+use tlsh::{ComparisonConfiguration, GeneratorOptions, HexStringPrefix};
+use tlsh::length::{DataLengthProcessingMode, DataLengthValidity, FuzzyHashLengthEncoding};
+use tlsh::hash::body::FuzzyHashBody;
+use tlsh::hash::checksum::FuzzyHashChecksum;
+
+fn one<T>(data: &[u8], text: &str, bin: &[u8], out: &mut [u8]) -> Option<u32>
+where
+    T: FuzzyHashType + FromStr<Err = tlsh::ParseError> + Clone + PartialEq + for<'a> TryFrom<&'a [u8], Error = tlsh::ParseError>,
+    T: tlsh::_docs::Dummy,
+{
+    None
+}
+
+pub fn exercise(data: &[u8], text: &str, bin: &[u8], out: &mut [u8]) -> u32 {
+    let mut acc = 0u32;
+    macro_rules! go {
+        ($t:ty) => {{
+            let mut g = TlshGeneratorFor::<$t>::new();
+            g.update(data);
+            g.update(&data[..data.len() / 2]);
+            let _ = g.processed_len();
+            let mut o = GeneratorOptions::new();
+            o.length_processing_mode(DataLengthProcessingMode::Conservative)
+                .allow_small_size_files(true)
+                .allow_statistically_weak_buckets_half(true)
+                .allow_statistically_weak_buckets_quarter(true)
+                .pure_integer_qratio_computation(true);
+            let h1 = g.finalize();
+            let h2 = g.clone().finalize_with_options(&o);
+            let p1 = <$t>::from_str(text);
+            let p2 = <$t>::from_str_with(text, Some(HexStringPrefix::WithVersion));
+            let p3 = <$t>::from_str_bytes(text.as_bytes(), None);
+            let p4 = <$t>::try_from(bin);
+            if let (Ok(a), Ok(b)) = (&h1, &p1) {
+                acc += a.compare(b);
+                acc += a.compare_with_config(b, ComparisonConfiguration::NoLength);
+                acc += <$t>::max_distance(ComparisonConfiguration::Default);
+                acc += a.store_into_bytes(out).unwrap_or(0) as u32;
+                acc += a.store_into_str_bytes(out, HexStringPrefix::Empty).unwrap_or(0) as u32;
+                acc += a.checksum().is_valid() as u32 + a.length().value() as u32 + a.qratios().q1ratio() as u32 + a.qratios().q2ratio() as u32;
+                acc += a.body().quartile(0) as u32 + a.body().data().len() as u32 + a.checksum().data().len() as u32;
+                let mut c = a.clone();
+                c.clear_checksum();
+                acc += (c == *a) as u32;
+            }
+            let _ = (h2, p2, p3, p4);
+        }};
+    }
+    go!(Short);
+    go!(Normal);
+    go!(NormalWithLongChecksum);
+    go!(Long);
+    go!(LongWithLongChecksum);
+    let v = DataLengthValidity::new::<128>(data.len() as u32);
+    acc += v.is_err() as u32 + v.is_err_on(DataLengthProcessingMode::Optimistic) as u32;
+    if let Some(l) = FuzzyHashLengthEncoding::new(data.len() as u32) {
+        acc += l.value() as u32 + l.is_valid() as u32 + l.range().map(|r| *r.end()).unwrap_or(0);
+    }
+    acc
+}
+'''.replace('''fn one<T>(data: &[u8], text: &str, bin: &[u8], out: &mut [u8]) -> Option<u32>
+where
+    T: FuzzyHashType + FromStr<Err = tlsh::ParseError> + Clone + PartialEq + for<'a> TryFrom<&'a [u8], Error = tlsh::ParseError>,
+    T: tlsh::_docs::Dummy,
+{
+    None
+}
+
+''', '')
+
+SHARED_PASS = r'''//! finalize through a shared reference while another shared borrow is alive.
+use tlsh::prelude::*;
+use tlsh::GeneratorOptions;
+
+pub fn witness(g: &TlshGenerator) -> (Option<u32>, bool, bool) {
+    let other: &TlshGenerator = g; // second shared borrow, alive across the calls
+    let a = g.finalize_with_options(&GeneratorOptions::new()).is_ok();
+    let b = g.finalize().is_ok();
+    (other.processed_len(), a, b)
+}
+'''
+SHARED_FAIL = SHARED_PASS.replace("    (other.processed_len(), a, b)", "    g.update(b\"late write\"); // E0596: `update` needs &mut self\n    (other.processed_len(), a, b)")
+
+
+def _tag():
+    return hashlib.sha256(engine.REPO.encode()).hexdigest()[:8] if engine.REPO != "/repo" else "repo"
+
+
+def _crate(name, lib_rs, features):
+    d = os.path.join(engine.WORK, "witness", _tag(), name)
+    os.makedirs(os.path.join(d, "src"), exist_ok=True)
+    feat = ", ".join('"%s"' % f for f in features)
+    with open(os.path.join(d, "Cargo.toml"), "w") as f:
+        f.write('[package]\nname = "%s"\nversion = "0.0.0"\nedition = "2021"\n\n[lib]\npath = "src/lib.rs"\n\n[dependencies]\n'
+                'fast-tlsh = { path = "%s/fast-tlsh", default-features = false, features = [%s] }\n\n[workspace]\n' % (name, engine.REPO, feat))
+    with open(os.path.join(d, "src", "lib.rs"), "w") as f:
+        f.write(lib_rs)
+    shutil.copyfile(os.path.join(engine.REPO, "Cargo.lock"), os.path.join(d, "Cargo.lock"))
+    return d
+
+
+def _check(d, name):
+    env = dict(os.environ)
+    env.update({"CARGO_TARGET_DIR": os.path.join(engine.WORK, "target", _tag(), "witness-" + name), "CARGO_NET_OFFLINE": "true", "RUSTFLAGS": "-Awarnings"})
+    r = subprocess.run(["cargo", "+nightly", "check", "--offline", "--message-format=json"], cwd=d, env=env, capture_output=True, text=True)
+    codes = []
+    msgs = []
+    for line in r.stdout.splitlines():
+        try:
+            m = json.loads(line)
+        except ValueError:
+            continue
+        if m.get("reason") == "compiler-message" and m["message"].get("level") == "error":
+            c = (m["message"].get("code") or {}).get("code")
+            codes.append(c)
+            msgs.append(m["message"].get("message", "")[:200])
+    return r.returncode, codes, msgs, r.stderr[-800:]
+
+
+_cache = {}
+
+
+def _run(name, lib_rs, features):
+    key = (name, engine.tree_digest(), tuple(features))
+    if key not in _cache:
+        d = _crate(name, lib_rs, features)
+        _cache[key] = _check(d, name)
+    return _cache[key]
 
 
 def nostd(ctx, rule):
-    pass
+    ctx.instance(rule)
+    rc, codes, msgs, err = _run("nostd_user", NOSTD_LIB, [])
+    ctx.ob(rule, ("witness:nostd_user", "type-checks"), rc == 0,
+           "the #![no_std] witness crate using the core API with default-features = false no longer type-checks: %s %s" % (codes[:3], msgs[:2] or err[-300:]))
 
 
 def finalize_shared(ctx, rule):
-    pass
+    ctx.instance(rule, 2)
+    rc, codes, msgs, err = _run("finalize_shared_pass", SHARED_PASS, ["std"])
+    ctx.ob(rule, ("witness:finalize_shared", "compiles"), rc == 0,
+           "finalize/finalize_with_options/processed_len can no longer be called through a shared reference: %s %s" % (codes[:3], msgs[:2] or err[-300:]))
+    rc2, codes2, msgs2, err2 = _run("finalize_shared_fail", SHARED_FAIL, ["std"])
+    ctx.ob(rule, ("witness:finalize_shared", "update-through-&-is-E0596"), rc2 != 0 and codes2 == ["E0596"],
+           "the compile-fail twin (update through &G) did not fail with exactly E0596: rc=%s codes=%s" % (rc2, codes2), trivial=True)
